@@ -204,7 +204,7 @@ let handle (toks : string list) : string =
   | ["H"; steps] ->
       let steps = String.split_on_char ';' steps in
       let ids = List.sort_uniq compare (List.filter_map (fun st -> match String.split_on_char ':' st with
-        | "e" :: _ :: id :: _ -> Some (int_of_string id) | _ -> None) steps) in
+        | "e" :: _ :: id :: _ -> Some (int_of_string id) | "w" :: _ :: id :: _ -> Some (int_of_string id) | _ -> None) steps) in
       let u = bisync_universe ids in
       let un = List.map n_of_int u in
       let out = ref [] in
@@ -215,6 +215,11 @@ let handle (toks : string list) : string =
             let e = (match kind with "c" -> Create (n_of_int (int_of_string size), n_of_int (int_of_string content)) | "d" -> Delete | _ -> Touch) in
             let stp = Edit ((if sd = "S" then Source else Dest), n_of_int (int_of_string id), e) in
             let (_, w') = run_step un (z_of_int t, w) stp in (t', w')
+        | ["w"; sd; id; size; content; mt] ->
+            (t', write_at (if sd = "S" then Source else Dest) (n_of_int (int_of_string id))
+                   { f_size = n_of_int (int_of_string size); f_mtime = z_of_int (int_of_string mt); f_content = n_of_int (int_of_string content) } w)
+        | ["x"; sd; id] ->
+            (t', drop_row (if sd = "S" then Source else Dest) (n_of_int (int_of_string id)) w)
         | ["s"; stname; maxdel] ->
             let r = bisync un (strat_of stname) (n_of_int (int_of_string maxdel)) (z_of_int t') w in
             let (status, w') = (match r with Some w' -> ("ok", w') | None -> ("refused", w)) in
